@@ -222,6 +222,10 @@ def _resolve_identifier(
             if index + 1 < total_scopes
             else ()
         )
+        definition_chain = getattr(scope, "definition_chain", None)
+        if definition_chain is not None:
+            scope_chain = definition_chain
+            outer_chain = tuple(item for item in definition_chain if item is not scope)
         try:
             binding = scope.get_binding(identifier.name)
             return _resolve_binding(binding, scope_chain)
